@@ -498,9 +498,12 @@ NAME_AWK = ["us", "hash", "sq", "dq", "semi", "dollar", "lbr", "qm", "data_", "l
 def _rand_value(rng, profile):
     awk = AWK_WILD if profile == "wild" else AWK_TAME
     n = rng.choice([0, 1, 1, 2, 2, 3, 3, 4, 5, 6, 8])
-    v = [rng.choice(awk) if rng.random() < 0.45 else rng.choice(PLAIN) for _ in range(n)]
-    # Dom_Value (CifText.tla): no line break directly followed by ';', not "." / "?"
-    v = [t for i, t in enumerate(v) if not (t == "semi" and i > 0 and v[i - 1] == "nl")]
+    v = []
+    for _ in range(n):
+        t = rng.choice(awk) if rng.random() < 0.45 else rng.choice(PLAIN)
+        # Dom_Value (CifText.tla): no line break directly followed by ';', not "." / "?"
+        if not (t == "semi" and v and v[-1] == "nl"):
+            v.append(t)
     if v in (["dot"], ["qm"]):
         v.append("a")
     return v
@@ -731,7 +734,10 @@ def run(ctx):
     ctx.cov["text_inputs"] = len(done)
     ctx.cov["text_inputs_per_kb_class"] = kbcount
     ctx.cov["text_inputs_not_cif11_when_written_by_biotite"] = sum(1 for s in done if not s["gram"])
-    need = {"UnderscoreQuote", "HashAtLineStart", "SemiAtLineStart", "ReservedAtLineStart", "TextFieldLine"}
+    # classes that are still expected among the enumerated files; UnderscoreQuote (repaired by
+    # biotite 0540e6c2) and Hash/Semi/ReservedAtLineStart (repaired by biotite 090058e5) are empty in
+    # CifText.tla now: such files must simply come back unchanged
+    need = {"TextFieldLine"}
     if not need <= set(kbcount):
         _vacuity(f"recorded-defect classes never enumerated: {sorted(need - set(kbcount))}")
     if sum(1 for s in done if not s["kb"]) < len(done) // 4:
@@ -802,7 +808,9 @@ def run(ctx):
     ctx.cov["map_states_per_kb"] = {f"{a}:{b}": n for (a, b), n in sorted(seen_kb.items())}
     if not {"ok", "KeyError", "Rejected"} <= set(seen_oc):
         _vacuity(f"outcomes not all reached: {seen_oc}")
-    for want in (("binary", "BcifBlockDel"), ("binary", "StaleRowCount"), ("text", "StaleRowCount")):
+    # BcifBlockDel (repaired by biotite 08201441) and StaleRowCount (repaired by biotite c2b1fbb3) are no
+    # longer tagged by Containers.tla: no recorded-defect transition is expected in the state graph
+    for want in ():
         if want not in seen_kb:
             _vacuity(f"recorded-defect transition never reached: {want}")
     if lazy_states == 0:
@@ -850,11 +858,11 @@ def run(ctx):
         ctx.sample({"s2_map_path": [labels[lab_ix[lab]] for lab, _ in stp]})
 
     # ================================================================= S3
-    ntext = 16 if quick else 400
+    ntext = 16 if quick else 250
     per = 20 if quick else 30
     titems = [{"seed": ctx.rng.randrange(1 << 30), "n": per, "profile": "wild" if k % 2 else "tame"}
               for k in range(ntext)]
-    nmap = 60 if quick else 1200
+    nmap = 60 if quick else 600
     mitems = [{"seed": ctx.rng.randrange(1 << 30), "length": 30 if quick else 40,
                "fl": "text" if k % 2 else "binary"} for k in range(nmap)]
     traces = []
